@@ -1,5 +1,362 @@
-import RSVerif.Basic
-/- C08: line-protocol driver (stub) -/
+import RSVerif.Model.Offsets
+import RSVerif.Spec.Offsets
+/-
+C08: line-protocol driver (core Lean only). Case format and result format: see go/harness/c08.go.
+
+  <kind> <in> <ann> <runid> <rdb> <steps>
+      → the canonical trace: what the model (constants as the PROPERTY states them, `Consts.spec`) does when
+        every byte arrives at once and the ACK tickers fire exactly every `ackPeriodMs` (diagnostic line).
+  accept <case> ;; T <tokens> pipe=… rdb=… abort=…
+      → `ok` iff the recorded trace of the real code is a behaviour of the model for SOME arrival times:
+        • every ACK read after the end of the full sync equals start + r for an r between the count the
+          previous ACK of that connection proved and the number of bytes the source had begun to send
+          when it read the ACK (exact in value, tolerant in time); before, it is the keep-alive 0 (or,
+          since the property does not ask for the keep-alive, such an exact value);
+          one keep-alive that was already under way when WaitFull was closed is tolerated per connection;
+        • at `q` (pipe drained, two further ACKs read) the last ACK equals start + everything sent;
+        • every PSYNC carries exactly the run id and the offset the model asks for; after a graceful close
+          everything sent had been received, after a reset (x) any count up to what was sent;
+        • every sample of the tag base equals the announced start offset;
+        • the bytes delivered to the pipe are exactly the stream bytes with offsets start+1, start+2, …
+          (the fake source continues from the offset it was ASKED for, so a wrong request shows here);
+        • abort flag = the model's `dead`;
+        • `tags` histories: the Offset the real parseSourceCommand attached to the j-th command equals
+          `tag` = tag base + position of the command's last byte, for every command completely received.
+-/
 namespace RSVerif.Drive.C08
-def handle (_line : String) : String := "unimplemented"
+open RSVerif RSVerif.Offsets
+
+def K : Consts := Consts.spec
+
+inductive Step
+  | send (k : Nat) | pause (ms : Nat) | w | d | x | e | q | h
+  deriving DecidableEq, Repr
+
+structure Case where
+  kind : String
+  inOff : Int
+  ann : Int
+  runid : String
+  rdb : Nat
+  steps : List Step
+
+def parseStep (s : String) : Option Step :=
+  match s.toList with
+  | ['w'] => some .w
+  | ['d'] => some .d
+  | ['x'] => some .x
+  | ['e'] => some .e
+  | ['q'] => some .q
+  | ['h'] => some .h
+  | 's' :: r => (String.ofList r).toNat?.map .send
+  | 'p' :: r => (String.ofList r).toNat?.map .pause
+  | _ => none
+
+def parseCase (f : List String) : Option Case :=
+  match f with
+  | [kind, i, a, rid, rdb, steps] => do
+    let inOff ← i.toInt?
+    let ann ← if kind == "full" then a.toInt? else some 0
+    let rdb ← rdb.toNat?
+    let st ← (steps.splitOn ",").mapM parseStep
+    if kind == "inc" || kind == "cont" || kind == "full" || kind == "tags" then
+      pure { kind := kind, inOff := inOff, ann := ann, runid := rid, rdb := rdb, steps := st }
+    else none
+  | _ => none
+
+/-- the byte the fake source sends at absolute offset o (mirrors `c08Byte` of the harness) -/
+def gByte (o : Int) : UInt8 := UInt8.ofNat ((((o % 251) * 7 + o / 251) % 256).toNat)
+
+def ridBytes (s : String) : Bytes := s.toUTF8.toList
+def ridString (b : Bytes) : String := String.ofList (b.map fun u => Char.ofNat u.toNat)
+
+def startState (c : Case) : St :=
+  if c.kind == "inc" || c.kind == "tags" then init c.inOff (ridBytes c.runid)
+  else if c.kind == "cont" then begin K c.inOff (ridBytes c.runid) .cont
+  else begin K c.inOff (ridBytes c.runid) (.full (ridBytes c.runid) c.ann)
+
+def showOut : Out → String
+  | .ack c n => s!"a{c}:{n}"
+  | .psync c r o => s!"P{c}:{ridString r}:{o}"
+
+/-- the command stream of the `tags` histories (mirrors `c08Cmds` of the harness), repeated for ever -/
+def cmds : List String :=
+  ["*3\r\n$3\r\nset\r\n$1\r\na\r\n$1\r\n1\r\n",
+   "*2\r\n$4\r\nincr\r\n$5\r\ncount\r\n",
+   "*1\r\n$4\r\nping\r\n",
+   "*4\r\n$4\r\nhset\r\n$1\r\nh\r\n$2\r\nf1\r\n$10\r\n0123456789\r\n"]
+
+def cmdLens : List Nat := cmds.map (·.utf8ByteSize)
+
+/-- positions (1-based byte counts) at which a command ends among the first n stream bytes -/
+def cmdEnds (n : Nat) : List Nat :=
+  let L := cmdLens.foldl (· + ·) 0
+  if L == 0 then [] else
+    let one : List Nat := (cmdLens.foldl (fun (acc : List Nat × Nat) l => (acc.1 ++ [acc.2 + l], acc.2 + l)) ([], 0)).1
+    ((List.range (n / L + 1)).flatMap fun r => one.map (r * L + ·)).filter (· ≤ n)
+
+/-- what parseSourceCommand attaches to the commands it has read from the pipe: `tag` at every command end
+    (C10: the decoder position is the number of bytes consumed) -/
+def tagsOf (c : Case) (s : St) : String :=
+  if c.kind != "tags" then "-"
+  else
+    let ts := (cmdEnds s.pipe.length).map fun pos => toString (tag s pos)
+    if ts.isEmpty then "none" else ",".intercalate ts
+
+def tail (c : Case) (s : St) : String :=
+  let pipe := if c.kind == "tags" then "-" else hexOrDash (s.pipe.map gByte)
+  s!"pipe={pipe} rdb={if c.kind == "full" then "ok" else "-"} abort={if s.dead then 1 else 0} tags={tagsOf c s}"
+
+/-! ### canonical (timed, everything instantaneous) run -/
+
+structure Sim where
+  st : St
+  t : Nat                       -- ms since the start
+  origins : List (Nat × Nat)    -- (connection, time its ticker was started) for every live ACK goroutine
+  toks : Array String
+  stopped : Bool
+
+def period : Nat := Generated.C08.ackPeriodMs.toNat
+def reopenDelay : Nat := Generated.C08.reopenDelayMs.toNat
+def refusedDelay : Nat := Generated.C08.refusedDelayMs.toNat
+
+/-- tick instants in (a, b] of all live goroutines, sorted by time then connection -/
+def ticksIn (origins : List (Nat × Nat)) (a b : Nat) : List (Nat × Nat) :=
+  let p := if period == 0 then 1 else period
+  let all := origins.flatMap fun (c, t0) =>
+    if b ≤ t0 then [] else
+      let jLo := if a < t0 then 1 else (a - t0) / p + 1
+      let jHi := (b - t0) / p
+      (List.range (jHi + 1 - jLo)).map fun i => (t0 + (jLo + i) * p, c)
+  (all.toArray.qsort fun x y => x.1 < y.1 || (x.1 == y.1 && x.2 < y.2)).toList
+
+def Sim.emit (m : Sim) (e : Ev) : Sim :=
+  let outs := emitted K m.st e
+  { m with st := step K m.st e, toks := outs.foldl (fun a o => a.push (showOut o)) m.toks }
+
+def Sim.advance (m : Sim) (b : Nat) : Sim :=
+  let m := (ticksIn m.origins m.t b).foldl
+    (fun m (_, c) => if c == m.st.conn && m.st.up then m.emit .tick else m.emit (.staleTick c)) m
+  { m with t := b }
+
+def Sim.tok (m : Sim) (s : String) : Sim := { m with toks := m.toks.push s }
+def Sim.base (m : Sim) : Sim := m.tok s!"b{tagBase m.st}"
+
+def Sim.drop (m : Sim) (name : String) (r : Reply) : Sim :=
+  let old := m.st.conn
+  let m := (m.tok name).emit .connDrop
+  -- after a reset the source reads nothing more on that connection
+  let m := if name == "x" then { m with origins := m.origins.filter (·.1 != old) } else m
+  if m.st.dead then { (m.tok "abort") with stopped := true }
+  else
+    let m := m.advance (m.t + reopenDelay)
+    let m := m.emit (.reconnect r)
+    let t0 := if r == .cont then m.t else m.t + refusedDelay
+    { m with origins := m.origins ++ [(m.st.conn, t0)] }.base
+
+def Sim.step (m : Sim) : Step → Sim
+  | .send k => ((m.tok s!"s{k}").emit (.recv k)).base
+  | .pause ms => m.advance (m.t + ms)
+  | .w => ((m.tok "w").emit .waitFullClosed).base
+  | .d => m.drop "d" .cont
+  | .x => m.drop "x" .cont
+  | .e => m.drop "e" .err
+  | .h => ((m.tok "h").emit .quietHour).base
+  | .q =>
+    let p := if period == 0 then 1 else period
+    let t0 := (m.origins.find? (·.1 == m.st.conn)).map (·.2) |>.getD 0
+    let target := if m.t < t0 then t0 + 2 * p else t0 + ((m.t - t0) / p + 2) * p
+    ((m.advance target).tok "q").base
+
+def canonical (c : Case) : String :=
+  let s0 := startState c
+  let m0 : Sim := { st := s0, t := 0, origins := [(0, 0)], toks := (s0.out.map showOut).toArray, stopped := false }
+  let m := c.steps.foldl (fun m st => if m.stopped then m else m.step st) m0.base
+  "T " ++ " ".intercalate m.toks.toList ++ " " ++ tail c m.st
+
+/-! ### acceptance of a recorded trace -/
+
+structure Acc where
+  st : St
+  hi : Nat                    -- stream bytes the source has begun to send and that can have been received
+  forks : List (Nat × St)     -- earlier connections: state as of their last ACK (their goroutine may live on)
+  grace : List Nat            -- connections that may still deliver one keep-alive sent before `w`
+  pending : Option Step       -- d / x / e seen, PSYNC not yet
+  real : Bool                 -- a real offset (not the keep-alive) was acknowledged before the end of the full sync
+  script : List Step          -- non-pause steps still to come
+
+/-- one ACK with value n read on a connection whose goroutine is in state `st` (full sync over) -/
+def feedAckExact (st : St) (hi : Nat) (c : Nat) (n : Int) (grace : Bool) : Except String St :=
+  match emitted K st .tick with
+  | [.ack c0 v0] =>
+    if c0 != c then .error s!"ack on connection {c}: model has connection {c0}"
+    else if n == v0 then .ok (step K st .tick)
+    else if n == K.ackWaiting && grace then .ok st
+    else if n < v0 then .error s!"ack {n} below start+received = {v0} already proved on this connection"
+    else
+      let st1 := step K st (.recv (n - v0).toNat)
+      if st1.received > hi then
+        .error s!"ack {n} ahead of start+sent = {st.sourceOffset + hi}"
+      else match emitted K st1 .tick with
+        | [.ack _ v1] => if v1 == n then .ok (step K st1 .tick) else .error s!"ack {n}: model acknowledges {v1}"
+        | _ => .error "model sends no ack"
+  | _ => .error s!"ack {n} on connection {c}: the model has no ACK goroutine there"
+
+/-- one ACK read on a connection whose goroutine is in state `st`. While the full sync is running the
+    model sends the keep-alive; the property does not ask for it, so the exact offset is accepted as well
+    (second component: the tool acknowledged a real offset before the end of the full sync). -/
+def feedAck (st : St) (hi : Nat) (c : Nat) (n : Int) (grace : Bool) : Except String (St × Bool) :=
+  if st.waitFull then (feedAckExact st hi c n grace).map (·, false)
+  else match emitted K st .tick with
+    | [.ack c0 v0] =>
+      if c0 == c && n == v0 then .ok (step K st .tick, false)
+      else match feedAckExact { st with waitFull := true } hi c n false with
+        | .ok st' => .ok ({ st' with waitFull := false }, true)
+        | .error e => .error s!"before the end of the full sync: neither the keep-alive {v0} nor exact ({e})"
+    | _ => .error s!"ack {n} on connection {c}: the model has no ACK goroutine there"
+
+def parseTok3 (r : List Char) : Option (Nat × String × Int) :=
+  match (String.ofList r).splitOn ":" with
+  | [c, rid, off] => do pure (← c.toNat?, rid, ← off.toInt?)
+  | _ => none
+
+def parseTok2 (r : List Char) : Option (Nat × Int) :=
+  match (String.ofList r).splitOn ":" with
+  | [c, n] => do pure (← c.toNat?, ← n.toInt?)
+  | _ => none
+
+def topUp (a : Acc) : Acc := { a with st := step K a.st (.recv (a.hi - a.st.received)) }
+
+def expectStep (a : Acc) (s : Step → Bool) (what : String) : Except String Acc :=
+  match a.script with
+  | st :: r => if s st then .ok { a with script := r } else .error s!"trace has {what} where the script has another step"
+  | [] => .error s!"trace has {what} after the end of the script"
+
+def Acc.tok (a : Acc) (tok : String) : Except String Acc :=
+  match tok.toList with
+  | 's' :: r =>
+    match (String.ofList r).toNat? with
+    | some k => do
+      let a ← expectStep a (· == .send k) tok
+      pure { a with hi := a.hi + k }
+    | none => .error s!"bad token {tok}"
+  | ['w'] => do
+    let a ← expectStep a (· == .w) tok
+    pure { a with st := step K a.st .waitFullClosed
+                  forks := a.forks.map fun (c, f) => (c, step K f .waitFullClosed)
+                  grace := a.st.conn :: a.forks.map (·.1) }
+  | ['d'] => do let a ← expectStep a (· == .d) tok; pure { a with pending := some .d }
+  | ['x'] => do let a ← expectStep a (· == .x) tok; pure { a with pending := some .x }
+  | ['e'] => do let a ← expectStep a (· == .e) tok; pure { a with pending := some .e }
+  | ['q'] => do
+    let a ← expectStep a (· == .q) tok
+    if (a.st.waitFull || a.real) && a.st.up && a.st.streaming && a.st.received != a.hi then
+      .error s!"ACKs settled at {ackValue K a.st}, not at start+received = {a.st.sourceOffset + a.hi}"
+    else pure (topUp a)
+  | ['h'] => do
+    let a ← expectStep a (· == .h) tok
+    pure { a with st := step K a.st .quietHour }
+  | ['q', '!'] => .error "the ACKs did not settle (pipe not drained, or no two further ACKs within 10 s)"
+  | 'b' :: r =>
+    match (String.ofList r).toInt? with
+    | some n =>
+      if n == tagBase a.st then .ok a
+      else .error s!"tag base is {n}, announced start offset is {tagBase a.st}"
+    | none => .error s!"bad token {tok}"
+  | 'a' :: 'b' :: 'o' :: 'r' :: 't' :: [] =>
+    match a.pending with
+    | none => .error "process aborted without a broken connection"
+    | some _ =>
+      let a := topUp a
+      let st := step K a.st .connDrop
+      if st.dead then .ok { a with st := st, pending := none, script := [] }
+      else .error "process aborted although the retry bound was not reached"
+  | 'a' :: r =>
+    match parseTok2 r with
+    | some (c, n) =>
+      let g := a.grace.contains c
+      let grace' := a.grace.filter (· != c)
+      if c == a.st.conn then do
+        let (st, real) ← feedAck a.st a.hi c n g
+        pure { a with st := st, grace := grace', real := a.real || real }
+      else match a.forks.find? (·.1 == c) with
+        | some (_, f) => do
+          let (f, _) ← feedAck f a.hi c n g
+          pure { a with forks := (c, f) :: a.forks.filter (·.1 != c), grace := grace' }
+        | none => .error s!"ack on unknown connection {c}"
+    | none => .error s!"bad token {tok}"
+  | 'P' :: r =>
+    match parseTok3 r, a.pending with
+    | some (c, rid, off), some p =>
+      -- what had been received when the connection broke
+      let st? : Except String St :=
+        if p == .x then
+          match emitted K (step K a.st .connDrop) (.reconnect .cont) with
+          | [.psync _ _ o0] =>
+            if off < o0 then .error s!"PSYNC offset {off} below start+received+1 = {o0} already proved"
+            else
+              let st1 := step K a.st (.recv (off - o0).toNat)
+              if st1.received > a.hi then .error s!"PSYNC offset {off} beyond start+sent+1 = {a.st.sourceOffset + a.hi + 1}"
+              else .ok st1
+          | _ => .ok a.st
+        else .ok (topUp a).st
+      match st? with
+      | .error e => .error e
+      | .ok st =>
+        -- the ACK goroutine of the old connection may live on; an ACK of it that is read from now on can
+        -- still have been computed at any time after its previous one: fork from the state BEFORE the top-up
+        -- (its counter is the shared one, so it keeps growing with what later connections receive: `streaming`)
+        let fork := (a.st.conn, { a.st with streaming := true })
+        let st := step K st .connDrop
+        let rep : Reply := if p == .e then .err else .cont
+        let want := emitted K st (.reconnect rep)
+        if want == [.psync c (ridBytes rid) off] then
+          let st := step K st (.reconnect rep)
+          .ok { a with st := st, hi := st.received, forks := fork :: a.forks, pending := none }
+        else
+          .error s!"PSYNC {rid} {off} on connection {c}; the model sends [{" ".intercalate (want.map showOut)}]"
+    | some _, none => .error s!"unexpected {tok}"
+    | none, _ => .error s!"bad token {tok}"
+  | _ => .error s!"harness reported {tok}"
+
+def accept (c : Case) (impl : List String) : Except String Unit := do
+  match impl with
+  | "T" :: toks =>
+    let body := toks.takeWhile fun t => !t.startsWith "pipe="
+    let fin := toks.dropWhile fun t => !t.startsWith "pipe="
+    let s0 := startState c
+    -- the handshake of sendPSyncCmd
+    let hs := s0.out.map showOut
+    if body.take hs.length != hs then
+      throw s!"handshake: model sends {hs}, trace starts {body.take hs.length}"
+    let script := c.steps.filter fun | .pause _ => false | _ => true
+    let a0 : Acc := { st := s0, hi := 0, forks := [], grace := [], pending := none, real := false, script := script }
+    let a ← (body.drop hs.length).foldlM (fun a t => a.tok t) a0
+    if a.pending.isSome then throw "connection dropped but neither PSYNC nor abort followed"
+    if !a.script.isEmpty then throw "trace ends before the script"
+    let a := if a.st.dead then a else topUp a
+    if fin != (tail c a.st).splitOn " " then
+      let got := fin.map fun t => if t.length > 80 then (t.take 80).toString ++ "…" else t
+      let want := ((tail c a.st).splitOn " ").map fun t => if t.length > 80 then (t.take 80).toString ++ "…" else t
+      throw s!"pipe/rdb/abort: got {got}, model {want} ({a.st.pipe.length} stream bytes)"
+  | _ => throw s!"harness result {impl.take 3}"
+
+def handle (line : String) : String :=
+  match line.splitOn " ;; " with
+  | [cs] =>
+    match parseCase (cs.splitOn " ") with
+    | some c => canonical c
+    | none => "badcase"
+  | [cs, impl] =>
+    match (cs.splitOn " ") with
+    | "accept" :: f =>
+      match parseCase f with
+      | some c =>
+        match accept c (impl.splitOn " ") with
+        | .ok _ => "ok"
+        | .error e => "bad: " ++ e
+      | none => "badcase"
+    | _ => "badcase"
+  | _ => "badcase"
+
 end RSVerif.Drive.C08
